@@ -108,7 +108,7 @@ func finish(ps *PropertySpec, tier string, seed int, results []*HarnessResult, l
 		v.Status = status
 		writeJSON(wpath, v)
 		switch status {
-		case "reproduced", "not-replayed", "replay-unsupported":
+		case "reproduced", "not-replayed", "replay-unsupported", "replay-error":
 			if status == "reproduced" {
 				validated++
 			}
